@@ -963,7 +963,7 @@ class SymRatio:
                 raise
             g = math.gcd(self.den, od)
             den = self.den // g * od
-            if den > 2 ** 40:
+            if den > (2 ** 100 if LONG_FRACTIONS[0] else 2 ** 40):
                 raise Unsupported("ratio arithmetic: common denominator too large")
             return self.num * (den // self.den), on * (den // od), den
 
@@ -1049,10 +1049,18 @@ class SymRatio:
         return "SymRatio(%r/%d)" % (self.num, self.den)
 
 
+LONG_FRACTIONS = [False]
+
+
 def _frac_ratio(x):
     """a fractional double as an exact rational proxy (den a power of two <= 2**30)"""
     n, d = x.as_integer_ratio()
     if d > 2 ** 30:
+        # a decimal fraction such as 0.000001: its double is still an exact rational, but sums with it are
+        # rounded by the real code and exact here.  Only harnesses that state this assumption switch it on
+        # (values stay far below 2**52 * ulp, so floor / trunc / comparisons against integers agree).
+        if LONG_FRACTIONS[0] and d <= 2 ** 90:
+            return SymRatio(n, d)
         raise Unsupported("float with a long binary fraction: %r" % (x,))
     return SymRatio(n, d)
 
